@@ -4,6 +4,7 @@ import (
 	"context"
 	"encoding/json"
 	"fmt"
+	"os"
 	"sort"
 	"strings"
 
@@ -207,6 +208,26 @@ func RunReal(c *Case, doc *ast.Document, built *gq.Built, rt *Runtime, ctxTag in
 		res = graphql.Do(graphql.Params{Schema: built.Schema, RequestString: c.Query, OperationName: c.OpName, VariableValues: vars, Context: ctx})
 	case "execute":
 		res = graphql.Execute(graphql.ExecuteParams{Schema: built.Schema, AST: doc, OperationName: c.OpName, Args: vars, Context: ctx})
+	case "cache":
+		// through a normalising plan cache: literals become synthetic variables, the plan is built from the rewritten
+		// document; the response (and what every resolver receives) must be the one of the original request
+		cache := graphql.NewPlanCache(graphql.PlanCacheOptions{Normalize: true})
+		pr := cache.Get(&built.Schema, c.Query, c.OpName)
+		if pr.Plan == nil {
+			o := Observed{Class: "requestError"}
+			for _, e := range pr.Errors {
+				o.ErrMsgs = append(o.ErrMsgs, e.Message)
+			}
+			return o
+		}
+		all := map[string]interface{}{}
+		for k, v := range vars {
+			all[k] = v
+		}
+		for k, v := range pr.SynthArgs {
+			all[k] = v
+		}
+		res = graphql.ExecutePlan(pr.Plan, graphql.ExecuteParams{Schema: built.Schema, OperationName: c.OpName, Args: all, Context: ctx})
 	default:
 		plan, err := graphql.PlanQuery(&built.Schema, doc, c.OpName)
 		if err != nil {
@@ -539,7 +560,7 @@ func GenCase(r *hx.Rng, m Mode) *Case {
 				gq.FieldDesc{Name: "mo0", Type: objs[r.Intn(len(objs))]})
 		}
 	}
-	opts := gen.ValidDocOpts{NoIntrospection: true}
+	opts := gen.ValidDocOpts{NoIntrospection: true, RootSpreadFirst: m.MutationOnly}
 	text, meta := gen.ValidDocWith(r, s, r.Range(1, 5), opts)
 	c := &Case{Schema: s, Query: text, World: GenWorld(r, s, m.Knobs(r)), Vars: map[string]interface{}{}}
 	// choose an operation
@@ -564,7 +585,10 @@ func GenCase(r *hx.Rng, m Mode) *Case {
 			c.Vars[k] = v
 		}
 	}
-	c.Entry = []string{"do", "execute", "plan"}[r.Intn(3)]
+	c.Entry = []string{"do", "execute", "plan", "cache", "cache"}[r.Intn(5)]
+	if e := os.Getenv("VERIF_ENTRY"); e != "" {
+		c.Entry = e // experiments: force one entry point
+	}
 	if m.PlanReuse && r.Chance(1, 2) {
 		c.Entry = "plan"
 		c.Reuse = r.Range(2, 4)
